@@ -118,7 +118,7 @@ def run_job(spec, ctx):
     def draw(rng):
         e = (H.draw_fn(shape) if rate else PR.pred_draw(shape))(rng)
         return e
-    opts = {'deadline': ctx.deadline, 'guards': 'record', 'guard_timeout': 10000 if spec.get('budget', 600) <= 1200 else 30000, 'branch_timeout': 8000, 'underflow': True, 'absorption': True, 'no_t1': sum(shape) > 4,
+    opts = {'deadline': ctx.deadline, 'guards': 'record', 'guard_timeout': 25000 if spec.get('budget', 600) <= 1200 else 40000, 'branch_timeout': 8000, 'underflow': True, 'absorption': True, 'no_t1': sum(shape) > 4,
             # x ** n of a float raises OverflowError beyond the double range; decided for beta within the six orders of magnitude the property states
             'pow_overflow': [z3.Real('beta') >= core.rv(25.0 / 6000.0), z3.Real('beta') <= core.rv(25000.0 / 6.0)]}
     nguards = 0
